@@ -11,7 +11,7 @@ def run(tier, seed, jobs):
         cap = 250
     else:
         configs = [dict(eager=False, salt=1, env_budget=2, cuts="sparse", horizon=2000000)]
-        cap = 1000
+        cap = 300
     cov, viol, harness = run_family(FAMILY, tier, configs, jobs, max_execs=cap, seed=seed)
     cov["max_deviations"] = configs[0]["env_budget"]
     cov["cut_points"] = configs[0]["cuts"]
